@@ -500,7 +500,7 @@ def full_alphabet():
 def plan(tier):
     if tier == 'quick':
         return {'shards': 8, 'budget_s': 90}
-    return {'shards': 16, 'budget_s': 900}
+    return {'shards': 16, 'budget_s': 1500}
 
 
 def run(ctx):
@@ -537,8 +537,19 @@ def run(ctx):
             if ctx.out_of_time():
                 break
             run_history(ctx, [f, p], 'fault-x-probe')
+    # (3b) thorough: every ordered pair of steps of the FULL alphabet
+    if ctx.tier == 'thorough':
+        for a in fa:
+            for b in fa:
+                idx += 1
+                if idx % ctx.nshards != ctx.shard:
+                    continue
+                if ctx.out_of_time():
+                    break
+                run_history(ctx, [a, b], 'exhaustive-full-alphabet-2')
+        ctx.note('all %d ordered pairs of steps of the full %d-step alphabet enumerated' % (len(fa) ** 2, len(fa)))
     # (4) random histories over the full alphabet
-    nrand = 3000 if ctx.tier == 'quick' else 150000
+    nrand = 3000 if ctx.tier == 'quick' else 400000
     for k in range(nrand // ctx.nshards):
         if ctx.out_of_time():
             break
